@@ -177,6 +177,9 @@ def run(prop, tier, seed, rep):
             rep.mismatch(owner, v["cls"], field, {"kind": "pair", "event": ev})
     import os
     json.dump(summary, open(os.path.join(core.BUILD, f"last_{prop}_verdicts.json"), "w"), indent=1, sort_keys=True)
+    if tier == "thorough":
+        idx = next(i for i, e in enumerate(events) if e["ev"] == "pair" and e["out"]["some"] == 1)
+        core.anti_vacuity(rep, "Trace_Pair", events[:idx + 20], [(idx, lambda e: (e["out"].update(lat=e["out"]["lat"] + 12), e)[1], "C05")], name="C05-selftest")
     tags = {}
     for e in events:
         t = e.get("tag", e["ev"])
